@@ -282,6 +282,20 @@ fn run_doc(case: &Value) -> Vec<Fail> {
                 transports.push((format!("in_place[{pn}]"), observe_in_place(&text, prior)));
             }
         }
+        if !escaped && doc["top"] == "object" {
+            // the array as a flattened part of a larger record: the outer visitor hands our visitor a buffered map and
+            // does not itself insist that every entry was consumed
+            #[derive(serde::Deserialize)]
+            struct Layer {
+                #[allow(dead_code)]
+                id: u32,
+                #[serde(flatten)]
+                grid: TooDee<u32>,
+            }
+            let wrapped = format!("{{\"id\":1,{}", &text[1..]);
+            let wrapped = if text == "{}" { "{\"id\":1}".to_string() } else { wrapped };
+            transports.push(("flatten".into(), observe(guarded(|| serde_json::from_str::<Layer>(&wrapped).map(|l| l.grid)))));
+        }
         if !escaped {
             // the same document in a length-prefixed format, with honest and dishonest announced lengths
             let n_data = doc["fields"].as_array().and_then(|l| l.iter().find(|f| f["key"] == "data")).and_then(|f| f["val"]["n"].as_u64()).unwrap_or(0) as usize;
@@ -343,6 +357,8 @@ fn run_doc(case: &Value) -> Vec<Fail> {
 /// element types for the round trip: value of cell `id`
 trait RtElem: Serialize + DeserializeOwned + PartialEq + Clone + std::fmt::Debug {
     const NAME: &'static str;
+    /// serde_json's value tree cannot hold every value of the type (128-bit integers): only the text transports apply
+    const VALUE_TREE: bool = true;
     fn of(id: u32) -> Self;
 }
 impl RtElem for u32 {
@@ -354,6 +370,26 @@ impl RtElem for u32 {
 impl RtElem for () {
     const NAME: &'static str = "()";
     fn of(_: u32) {}
+}
+impl RtElem for i128 {
+    const NAME: &'static str = "i128";
+    const VALUE_TREE: bool = false;
+    fn of(id: u32) -> i128 {
+        if id % 2 == 0 { i128::MIN + id as i128 } else { (u64::MAX as i128) * 3 + id as i128 }      // beyond the 64-bit range
+    }
+}
+impl RtElem for u128 {
+    const NAME: &'static str = "u128";
+    const VALUE_TREE: bool = false;
+    fn of(id: u32) -> u128 {
+        u128::MAX - id as u128
+    }
+}
+impl RtElem for std::collections::BTreeMap<u32, String> {
+    const NAME: &'static str = "BTreeMap<u32,String>";
+    fn of(id: u32) -> Self {
+        (0..id % 3).map(|k| (id + k, format!("v{k}"))).collect()       // maps with integer keys as cells
+    }
 }
 impl RtElem for i64 {
     const NAME: &'static str = "i64";
@@ -401,6 +437,15 @@ fn roundtrip_all<E: RtElem>(t: &TooDee<E>, fails: &mut Vec<Fail>) {
     let bytes = serde_json::to_vec(t).unwrap();
     let mut w: Vec<u8> = Vec::new();
     serde_json::to_writer(&mut w, t).unwrap();
+    if !E::VALUE_TREE {
+        for (sname, text) in [("to_string", s.as_bytes().to_vec()), ("to_vec", bytes), ("to_writer", w)] {
+            let txt = String::from_utf8(text.clone()).unwrap();
+            check(&format!("{sname}->from_str"), guarded(|| serde_json::from_str::<TooDee<E>>(&txt)), fails);
+            check(&format!("{sname}->from_slice"), guarded(|| serde_json::from_slice::<TooDee<E>>(&text)), fails);
+            check(&format!("{sname}->from_reader"), guarded(|| serde_json::from_reader::<_, TooDee<E>>(&text[..])), fails);
+        }
+        return;
+    }
     let val = serde_json::to_value(t).unwrap();
     // the document has exactly the three stated fields
     let keys: Vec<String> = val.as_object().map(|m| m.keys().cloned().collect()).unwrap_or_default();
@@ -500,6 +545,9 @@ fn run_roundtrip(case: &Value) -> Vec<Fail> {
         }
         roundtrip_all(&TooDee::from_vec(nc, nr, (1..=n).map(<()>::of).collect()), &mut fails);      // a zero-sized element type
         roundtrip_all(&TooDee::from_vec(nc, nr, (1..=n).map(i64::of).collect()), &mut fails);
+        roundtrip_all(&TooDee::from_vec(nc, nr, (1..=n).map(i128::of).collect()), &mut fails);
+        roundtrip_all(&TooDee::from_vec(nc, nr, (1..=n).map(u128::of).collect()), &mut fails);
+        roundtrip_all(&TooDee::from_vec(nc, nr, (1..=n).map(<std::collections::BTreeMap<u32, String>>::of).collect()), &mut fails);
         roundtrip_all(&TooDee::from_vec(nc, nr, (1..=n).map(String::of).collect()), &mut fails);
         roundtrip_all(&TooDee::from_vec(nc, nr, (1..=n).map(<Option<u8>>::of).collect()), &mut fails);
         roundtrip_all(&TooDee::from_vec(nc, nr, (1..=n).map(<Vec<u8>>::of).collect()), &mut fails);
